@@ -17,6 +17,11 @@ import (
 // whole function name of the innermost bfe frame.
 var bfeFrameLine = regexp.MustCompile(`(?m)^github\.com/bfenetworks/bfe/(\S+)\([^()]*\)$`)
 
+var (
+	stackNoise  = regexp.MustCompile(`\((?:0x[0-9a-f]+|\{[^)]*|[^()]*\?)[^()]*\)| \+0x[0-9a-f]+|0x[0-9a-f]+\??`)
+	goroutineID = regexp.MustCompile(`goroutine \d+`)
+)
+
 func panicSig(stack string) string {
 	m := bfeFrameLine.FindStringSubmatch(stack)
 	if m == nil {
@@ -51,7 +56,7 @@ func (f *findings) add(sig, what string, size int, witness interface{}) {
 		return
 	}
 	cur.n++
-	if size < cur.size {
+	if size < cur.size || size == cur.size && what < cur.what { // deterministic choice whatever the goroutine order
 		cur.what, cur.size, cur.witness = what, size, witness
 	}
 }
@@ -76,10 +81,17 @@ func (f *findings) try(size int, desc func() interface{}, fn func()) (panicked b
 		if e := recover(); e != nil {
 			panicked = true
 			st := string(debug.Stack())
-			if len(st) > 3000 {
-				st = st[:3000]
+			sig := panicSig(st)
+			// keep the frames, drop what differs from run to run (addresses, goroutine id)
+			st = stackNoise.ReplaceAllString(st, "")
+			st = goroutineID.ReplaceAllString(st, "goroutine N")
+			if i := strings.Index(st, "\npanic("); i >= 0 {
+				st = st[i+1:]
 			}
-			f.add(panicSig(st), fmt.Sprintf("panic: %v", e), size,
+			if len(st) > 2500 {
+				st = st[:2500]
+			}
+			f.add(sig, fmt.Sprintf("panic: %v", e), size,
 				map[string]interface{}{"case": desc(), "panic": fmt.Sprint(e), "stack": st})
 		}
 	}()
